@@ -217,7 +217,7 @@ impl Scenario for Chunk {
             p.ops.push(Op::Read);
             for _ in 0..rng.range(2, 14) {
                 p.ops.push(if rng.chance(1, 3) {
-                    Op::Raw { n: *rng.pick(&[1u16, 2, 3, 5, 9, 16, 40, 300]), via: rng.below(3) as u8 }
+                    Op::Raw { n: *rng.pick(&[1u16, 2, 3, 5, 9, 16, 40, 300]), via: rng.below(5) as u8 }
                 } else {
                     Op::Read
                 });
@@ -352,7 +352,7 @@ impl Scenario for Soup {
                     0 | 1 => Op::Skip,
                     2 if p.stream.kind == SourceKind::Slice => Op::ReadText,
                     3 => Op::Flip { bit: 1 << rng.below(7), on: rng.bool() },
-                    4 if rng.bool() => Op::Raw { n: *rng.pick(&[1u16, 2, 3, 5, 16, 40, 300]), via: rng.below(3) as u8 },
+                    4 if rng.bool() => Op::Raw { n: *rng.pick(&[1u16, 2, 3, 5, 16, 40, 300]), via: rng.below(5) as u8 },
                     _ => Op::Read,
                 });
             }
